@@ -225,5 +225,62 @@ def parse? (s : String) : Option BF :=
 
 end BF
 
+namespace BF
+
+/-- `Σ_{k<n} term_k`, `term_0 = 1/(2m+1)`, `term_{k+1} = term_k · 2T/(2m+2k+3)` -/
+def boysSeries (T : BF) (m : Nat) : Nat → Nat → BF → BF → BF
+  | 0, _, _, acc => acc
+  | n+1, k, term, acc =>
+    let term' := div (mul term (mul (ofInt 2) T)) (ofInt (2*m + 2*k + 3))
+    boysSeries T m n (k+1) term' (add acc term')
+
+/-- Boys function `F_m(T) = ∫₀¹ t^{2m} e^{-T t²} dt` for `m = 0 … mMax-1`, `T ≥ 0`.
+`T ≤ 200`: the all-positive series `e^{-T} Σ_k (2T)^k / ((2m+1)(2m+3)…(2m+2k+1))` at the top order
+and the downward recursion `F_m = (2T F_{m+1} + e^{-T})/(2m+1)`;
+`T > 200`: `F_0 = ½√(π/T)` (the neglected tail is below `e^{-200}`) and the upward recursion. -/
+def boysAll (T : BF) (mMax : Nat) : Array BF :=
+  if mMax == 0 then #[] else
+  let eT := exp (neg T)
+  if lt (ofInt 200) T then Id.run do
+    let mut out : Array BF := #[div (sqrt (div piVal T)) (ofInt 2)]
+    for m in [0:mMax-1] do
+      let prev := out[m]!
+      out := out.push (div (sub (mul (ofInt (2*m+1)) prev) eT) (mul (ofInt 2) T))
+    return out
+  else Id.run do
+    let top := mMax - 1
+    let t0 := div 1 (ofInt (2*top+1))
+    let ftop := mul eT (boysSeries T top 1200 0 t0 t0)
+    let mut rev : Array BF := #[ftop]
+    for i in [0:top] do
+      let m := top - 1 - i
+      let nxt := rev[i]!
+      rev := rev.push (div (add (mul (mul (ofInt 2) T) nxt) eT) (ofInt (2*m+1)))
+    return rev.reverse
+
+end BF
+
+/-! ## `BM`: a `BF` value together with a running majorant of its magnitude
+
+Every operation also propagates an upper bound of what the result would be if all the
+terms of all the sums that produced it had been added in absolute value.  This is the scale
+against which "equal to rounding error" is judged for properties that state no tolerance. -/
+structure BM where
+  v : BF
+  g : BF     -- majorant, `g ≥ |v|`
+deriving Inhabited
+
+namespace BM
+def ofBF (x : BF) : BM := ⟨x, x.abs⟩
+instance : Add BM := ⟨fun a b => ⟨a.v + b.v, a.g + b.g⟩⟩
+instance : Sub BM := ⟨fun a b => ⟨a.v - b.v, a.g + b.g⟩⟩
+instance : Mul BM := ⟨fun a b => ⟨a.v * b.v, a.g * b.g⟩⟩
+instance : Div BM := ⟨fun a b => ⟨a.v / b.v, a.g / b.v.abs⟩⟩
+instance : Neg BM := ⟨fun a => ⟨-a.v, a.g⟩⟩
+instance : Num BM := { nat := fun n => ofBF (BF.ofInt n) }
+instance : Transc BM :=
+  { exp := fun a => ofBF (BF.exp a.v), sqrt := fun a => ofBF (BF.sqrt a.v), pi := ofBF BF.piVal }
+end BM
+
 /-- exact rationals: used for the purely algebraic parts (tables, decision logic) -/
 instance : Num Rat := { nat := fun n => (n : Rat) }
